@@ -567,7 +567,8 @@ class RlWriter:
         if not self.debug:
             elements.extend(self.renderLicense())
 
-        self.render_status(status="rendering", article="")
+        if self.render_status:
+            self.render_status(status="rendering", article="")
 
         if not self.fail_safe_rendering:
             self.doc.bookmarks = self.bookmarks
